@@ -90,6 +90,11 @@ def systems(tier):
     out.append(dict(types=["CH6"], molecules=[("CH6", 1)], box=BOX, grid=GRID, dist=[(1, 5, 1.5, 0.3)], kwargs=dict(nrewind=3, maxiter=4), input=pre))
     out.append(dict(types=["RING5"], molecules=[("RING5", 1)], box=BOX, grid=GRID, cyc=True, bundle="axis+face18",
                     kwargs=dict(cycles=["RING5"], cycle_tol=0.3, nrewind=3, maxiter=4), input=pre))
+    # two cyclic molecule types with different residue sizes in one run (the larger one first): the slack of every restrained
+    # pair is the mean residue-pair size of its own molecule
+    for mols in ([("RINGB4", 1), ("RING4", 1)], [("RING4", 1), ("RINGB4", 1)]):
+        out.append(dict(types=["RING4", "RINGB4"], molecules=mols, box=[6.0, 6.0, 6.0], grid=[[2.0, 2.0, 2.0], [4.5, 4.5, 4.5], [2.0, 4.5, 2.0], [4.5, 2.0, 4.5]], cyc=True, devs=1,
+                        bundle="axis+face18", kwargs=dict(cycles=[m for m, _ in mols], cycle_tol=0.3, nrewind=3, maxiter=4)))
     for typ in ("LASSO", "LASSO0"):
         out.append(dict(types=[typ], molecules=[(typ, 1)], box=BOX, grid=GRID, cyc=True, bundle="axis+face18", kwargs=dict(cycles=[typ], cycle_tol=0.3, nrewind=3, maxiter=4)))
     for typ in ("CH5", "CH6"):
@@ -169,8 +174,10 @@ def judge(sysd, res, choices):
     if res["exc"] is not None:
         viols.append(crash_violation(res["exc"], case1, assertion="building-with-restraints-does-not-crash"))
         return viols, 0
-    typ = sysd["types"][0]
-    tdef = G.TYPES[typ]
+    mol_types = [name for name, count in sysd["molecules"] for _ in range(count)]
+    tdefs = [G.TYPES[t] for t in mol_types]
+    typ = mol_types[0]
+    tdef = tdefs[0]
     resnames = [r for r, _ in tdef["res"]]
     box = np.array(sysd["box"])
     sizes = res.get("sizes", {})
@@ -189,7 +196,7 @@ def judge(sysd, res, choices):
                 pos.pop((e[1], k), None)
         elif e[0] == "add":
             m, k, p = e[1], e[2], np.array(e[3])
-            resid, resname = k + 1, resnames[k]
+            resid, resname = k + 1, tdefs[m]["res"][k][0]
             for g in sysd.get("geos", []):
                 if g["resname"] == resname and g["start"] <= resid < g["stop"] and not geo_ok(g, p):
                     bad("geometric-restraint-holds", f"residue {resid}{resname} placed at {p} violates {g['kind']} {g['inout']} {g['centre']} {g['params']}")
@@ -213,13 +220,17 @@ def judge(sysd, res, choices):
     # final positions: pair restraints
     nmol = sysd["molecules"][0][1]
     n = len(resnames)
-    avg = float(np.mean([(sizes.get((0, a), 0) + sizes.get((0, b), 0)) / 2.0 for a, b in tdef["edges"]])) if tdef["edges"] else 0.0
+    def avg_of(m):
+        ed = tdefs[m]["edges"]
+        return float(np.mean([(sizes.get((m, a), 0) + sizes.get((m, b), 0)) / 2.0 for a, b in ed])) if ed else 0.0
+    avg = avg_of(0)
     pairs = []
     for a, b, d, tol in sysd.get("dist", []):
         pairs += [(m, a, b, d, tol, "distance-restraint") for m in range(nmol)]
     if sysd.get("cyc"):
         # closing edge = the ring edge that is not in the growth tree: recover the tree from the step events
-        for m in range(nmol):
+        for m in range(len(mol_types)):
+            tdef = tdefs[m]
             tree = set()
             for e in res["events"]:
                 if e[0] == "path" and e[1] == m:
@@ -249,6 +260,7 @@ def judge(sysd, res, choices):
             bad(label, f"molecule {m}: residue {a} or {b} has no position")
             continue
         r = np.linalg.norm(O.min_image(pos[(m, a)] - pos[(m, b)], box))
+        avg = avg_of(m)
         if not (d - tol - 1e-9 <= r <= d + tol + avg + 1e-9):      # also true for nan
             bad(label, f"molecule {m}: residues {a},{b} end {r:.4f} nm apart, allowed [{d - tol:.4f}, {d + tol + avg:.4f}] (d={d} tol={tol} mean pair size={avg})",
                 ["cyclic-molecule"] if label == "cycle-closed" else [])
@@ -261,7 +273,7 @@ def run_case(case):
         res = run_exec(sysd, Chooser(case["choices"]))
         v, _ = judge(sysd, res, case["choices"])
         return dict(evals=1, keys=[], violations=v, stats={})
-    d = 2 if case["tier"] == "quick" else 3
+    d = sysd.get("devs") or (2 if case["tier"] == "quick" else 3)
     bounds = {"vec": d, "grid": 1, "env": 1, "*": d}
     evals, keys, viols, traces, ntrans = 0, set(), [], set(), 0
     stats = dict(executions=0, horizon_cuts=0, restraint_rejections=0, unowned_random_draws=0)
